@@ -36,6 +36,10 @@ def harnesses_for(prop, tier):
             continue
         if tier == "quick" and h["tier"] != "quick":
             continue
+        # "extra" harnesses exist in the harness files and can be run with `--tier extra`, but are in
+        # neither registered tier: they were not (re)validated to terminate inside the budget on the final tree
+        if tier == "thorough" and h["tier"] == "extra":
+            continue
         out.append(dict(h))
     return out
 
@@ -146,7 +150,7 @@ for _n in ["f", "ff", "fg", "fff", "ffg", "gff", "fgf"]:
 for _q in (1, 2):
     H("C04", "cache_mod", "c04_cache_class_lookup_2classes_q%d" % _q, what="cache class lookup exact for every %d-byte query, classes a, a$" % _q, vars="%d query bytes" % _q,
       bound="2 classes", functions=["ProguardCache::get_class", "ProguardCache::remap_class", "ProguardCache::remap_throwable"], stubs=[])
-for _q, _t in [(1, "thorough"), (2, "thorough"), (3, "thorough")]:
+for _q, _t in [(1, "extra"), (2, "extra"), (3, "extra")]:
     H("C04", "cache_mod", "c04_cache_class_lookup_q%d" % _q, tier=_t, timeout=900, what="cache class lookup (binary search) is exact for every %d-byte query over {a,b,$,.,A,0,m} against classes a, a$, a., b" % _q,
       vars="%d query bytes" % _q, bound="4 classes, %d-byte queries" % _q, functions=["ProguardCache::get_class", "ProguardCache::remap_class", "ProguardCache::remap_throwable"], stubs=[])
 H("C04", "mapper", "p_mapper_dupclass", what="(shared with C01) real builder on [class a, method, class a again, method]: class and method lookup answer from the last class block with that name", bound="4 records (1 symbolic)", **_pb)
@@ -187,7 +191,7 @@ H("C13", "mapper", "c13_mapper_kernel_nopanic", what="mapper iterate_with_lines 
 
 H("C13", "stacktrace", "c13_classifiers_3", timeout=600, what="parse_frame / parse_throwable never panic, parts are sub-slices; every valid-UTF-8 text of 3 bytes over the delimiter alphabet + a 2-byte character",
   vars="3 bytes", bound="3 bytes", functions=["stacktrace::parse_frame", "stacktrace::parse_throwable"], stubs=["core::slice::memchr::{memchr,memrchr} -> byte loops"])
-H("C13", "stacktrace", "c13_classifiers_5", tier="thorough", timeout=1800, what="same, 5 bytes", vars="5 bytes", bound="5 bytes",
+H("C13", "stacktrace", "c13_classifiers_5", tier="extra", timeout=1800, what="same, 5 bytes", vars="5 bytes", bound="5 bytes",
   functions=["stacktrace::parse_frame", "stacktrace::parse_throwable"], stubs=["core::slice::memchr::{memchr,memrchr} -> byte loops"])
 H("C13", "stacktrace", "c13_frame_template_6", tier="thorough", timeout=2400, what="`at ` + 6 symbolic bytes + `)`: parse_frame never panics; a returned frame is exactly the pieces of the line",
   vars="6 bytes", bound="10-byte lines of that shape", functions=["stacktrace::parse_frame"], stubs=["core::slice::memchr::{memchr,memrchr} -> byte loops"])
@@ -211,18 +215,20 @@ _c06 = dict(functions=["mapping::parse_proguard_record", "parse_proguard_header"
             stubs=["core::str::from_utf8 -> from_utf8_model", "char::is_numeric -> is_numeric_model", "memchr/memrchr -> byte loops"])
 H("C06", "mapping", "c06_step_any_3", timeout=900, what="step (a)(b)(c), every slice of 1..3 arbitrary bytes", vars="3 bytes (all 256 values), length", bound="<=3 bytes", **_c06)
 H("C06", "mapping", "c06_step_header_4", timeout=900, what="step, `#` + up to 4 arbitrary bytes", vars="4 bytes, length", bound="<=5 bytes", **_c06)
-H("C06", "mapping", "c06_step_sourcefile_3", tier="thorough", timeout=3000, what="step, sourceFile JSON prefix + up to 3 arbitrary bytes (unterminated value, terminators inside)", vars="3 bytes, length", bound="33+3 bytes", **_c06)
-H("C06", "mapping", "c06_locality_any_3", tier="thorough", timeout=3000, what="locality (d), every 3-byte slice", vars="3 bytes", bound="3 bytes", **_c06)
-H("C06", "mapping", "c06_locality_any_4", tier="thorough", timeout=3000, what="locality (d), every 4-byte slice", vars="4 bytes", bound="4 bytes", **_c06)
-H("C06", "mapping", "c06_step_any_4", tier="thorough", timeout=2400, what="step, 1..4 arbitrary bytes", vars="4 bytes, length", bound="<=4 bytes", **_c06)
-H("C06", "mapping", "c06_step_any_5", tier="thorough", timeout=3000, what="step, 1..5 arbitrary bytes", vars="5 bytes, length", bound="<=5 bytes", **_c06)
-H("C06", "mapping", "c06_step_member_4", tier="thorough", timeout=2400, what="step, four-space indent + up to 4 arbitrary bytes", vars="4 bytes, length", bound="<=8 bytes", **_c06)
-H("C06", "mapping", "c06_step_member_6", tier="thorough", timeout=3000, what="step, four-space indent + up to 6 arbitrary bytes", vars="6 bytes, length", bound="<=10 bytes", **_c06)
-H("C06", "mapping", "c06_step_header_6", tier="thorough", timeout=2400, what="step, `# ` + up to 6 arbitrary bytes", vars="6 bytes, length", bound="<=8 bytes", **_c06)
-H("C06", "mapping", "c06_step_sourcefile_5", tier="thorough", timeout=2400, what="step, sourceFile prefix + up to 5 arbitrary bytes", vars="5 bytes, length", bound="33+5 bytes", **_c06)
-H("C06", "mapping", "c06_locality_any_5", tier="thorough", timeout=3000, what="locality, every 5-byte slice", vars="5 bytes", bound="5 bytes", **_c06)
-H("C06", "mapping", "c06_locality_header_4", tier="thorough", timeout=2400, what="locality, `#` + 4 bytes", vars="4 bytes", bound="5 bytes", **_c06)
-H("C06", "mapping", "c06_locality_sourcefile_4", tier="thorough", timeout=2400, what="locality, sourceFile prefix + 4 bytes", vars="4 bytes", bound="37 bytes", **_c06)
+H("C06", "mapping", "c06_step_sourcefile_3", tier="extra", timeout=3000, what="step, sourceFile JSON prefix + up to 3 arbitrary bytes (unterminated value, terminators inside)", vars="3 bytes, length", bound="33+3 bytes", **_c06)
+H("C06", "mapping", "c06_locality_any_3", tier="extra", timeout=3000, what="locality (d), every 3-byte slice", vars="3 bytes", bound="3 bytes", **_c06)
+H("C06", "mapping", "c06_locality_any_4", tier="extra", timeout=3000, what="locality (d), every 4-byte slice", vars="4 bytes", bound="4 bytes", **_c06)
+H("C06", "mapping", "c06_step_any_4", tier="extra", timeout=2400, what="step, 1..4 arbitrary bytes", vars="4 bytes, length", bound="<=4 bytes", **_c06)
+H("C06", "mapping", "c06_step_any_5", tier="extra", timeout=3000, what="step, 1..5 arbitrary bytes", vars="5 bytes, length", bound="<=5 bytes", **_c06)
+H("C06", "mapping", "c06_step_member_4", tier="extra", timeout=2400, what="step, four-space indent + up to 4 arbitrary bytes", vars="4 bytes, length", bound="<=8 bytes", **_c06)
+H("C06", "mapping", "c06_step_member_6", tier="extra", timeout=3000, what="step, four-space indent + up to 6 arbitrary bytes", vars="6 bytes, length", bound="<=10 bytes", **_c06)
+H("C06", "mapping", "c06_step_header_6", tier="extra", timeout=2400, what="step, `# ` + up to 6 arbitrary bytes", vars="6 bytes, length", bound="<=8 bytes", **_c06)
+H("C06", "mapping", "c06_step_sourcefile_5", tier="extra", timeout=2400, what="step, sourceFile prefix + up to 5 arbitrary bytes", vars="5 bytes, length", bound="33+5 bytes", **_c06)
+H("C06", "mapping", "c06_locality_any_5", tier="extra", timeout=3000, what="locality, every 5-byte slice", vars="5 bytes", bound="5 bytes", **_c06)
+H("C06", "mapping", "c06_locality_header_4", tier="extra", timeout=2400, what="locality, `#` + 4 bytes", vars="4 bytes", bound="5 bytes", **_c06)
+H("C06", "mapping", "c06_locality_sourcefile_4", tier="extra", timeout=2400, what="locality, sourceFile prefix + 4 bytes", vars="4 bytes", bound="37 bytes", **_c06)
+H("C06", "mapping", "s_from_utf8_3", tier="thorough", timeout=1200, what="model validation: from_utf8_model == core::str::from_utf8 on every byte string of <=3 bytes", vars="3 bytes, length", bound="<=3 bytes",
+  functions=["core::str::from_utf8"], stubs=[])
 H("C06", "mapping", "s_is_numeric_latin1", tier="thorough", timeout=600, what="model validation: is_numeric_model == char::is_numeric on all 256 Latin-1 code points", vars="1 byte", bound="exhaustive over u8",
   functions=["char::is_numeric"], stubs=[])
 
@@ -256,7 +262,7 @@ H("C16", "java", "c16_tokenizer_len3", timeout=900, what="all `(`+2 characters",
 H("C16", "java", "c16_tokenizer_len4", timeout=900, what="all `(`+3 characters", vars="3 characters", bound="4-character strings", **_c16)
 H("C16", "java", "c16_tokenizer_len5", timeout=1200, what="all `(`+4 characters", vars="4 characters", bound="5-character strings", **_c16)
 H("C16", "java", "c16_tokenizer_utf8_names", tier="thorough", timeout=3600, what="`(L`+2 bytes+`;`+1 byte+`)V` incl. a 2-byte character in the class name: count and return slice", vars="3 bytes", bound="8-byte strings of that shape", **_c16)
-H("C16", "java", "c16_tokenizer_len6", tier="thorough", timeout=3600, what="all `(`+5 characters", vars="5 characters", bound="6-character strings", **_c16)
+H("C16", "java", "c16_tokenizer_len6", tier="extra", timeout=3600, what="all `(`+5 characters", vars="5 characters", bound="6-character strings", **_c16)
 
 # --------------------------------------------------------------------------- C19
 PROPS["C19"] = dict(
@@ -268,7 +274,7 @@ PROPS["C19"] = dict(
 _c19 = dict(functions=["ProguardMapping::has_line_info", "ProguardMapping::summary", "MappingSummary::new", "ProguardRecordIter::next"], stubs=["mapping::parse_proguard_record -> inject::parse_stub"], mode="full")
 H("C19", "mapping", "c19_folds_3", timeout=600, what="folds == reference, 3 items", vars="kinds/keys/values of 3 items", bound="3 items", **_c19)
 H("C19", "mapping", "c19_folds_5", timeout=900, what="folds == reference, 5 items", vars="kinds/keys/values of 5 items", bound="5 items", **_c19)
-H("C19", "mapping", "c19_folds_8", tier="thorough", timeout=2400, what="folds == reference, 8 items", vars="kinds/keys/values of 8 items", bound="8 items", **_c19)
+H("C19", "mapping", "c19_folds_8", tier="extra", timeout=2400, what="folds == reference, 8 items", vars="kinds/keys/values of 8 items", bound="8 items", **_c19)
 H("C19", "mapping", "c19_is_valid_window", timeout=1200, what="is_valid == 50-item window rule, 52 items of symbolic kind", vars="52 kinds", bound="52 items",
   functions=["ProguardMapping::is_valid", "ProguardRecordIter::next"], stubs=["mapping::parse_proguard_record -> inject::parse_stub"], mode="full")
 
@@ -282,11 +288,11 @@ PROPS["C05"] = dict(
 )
 _c05 = dict(functions=["mapping::parse_proguard_record", "ProguardRecord::try_parse", "parse_proguard_header", "parse_proguard_field_or_method", "parse_proguard_class", "parse_usize", "parse_prefix", "parse_until*"],
             stubs=["core::str::from_utf8 -> from_utf8_model", "char::is_numeric -> is_numeric_model", "memchr/memrchr -> byte loops"], vars="identifier characters and digits of every hole", bound="one line")
-for _n, _t in [("class", "thorough"), ("header_k", "quick"), ("class_crlf", "thorough"), ("header_kv", "thorough"), ("header_sourcefile", "thorough"), ("field", "thorough"), ("field_lf", "thorough"),
-               ("method_plain", "thorough"), ("method_noargs_class", "thorough"), ("method_range", "thorough"), ("method_range_os", "thorough"), ("method_range_os_oe", "thorough"), ("method_norange_os", "thorough"),
-               ("bad_unspaced_arrow", "thorough"), ("bad_class_no_colon", "thorough"), ("bad_indent2", "thorough"), ("bad_start_without_end", "thorough"), ("bad_no_type", "thorough"), ("bad_no_arrow", "thorough")]:
+for _n, _t in [("class", "extra"), ("header_k", "quick"), ("class_crlf", "extra"), ("header_kv", "extra"), ("header_sourcefile", "extra"), ("field", "extra"), ("field_lf", "extra"),
+               ("method_plain", "extra"), ("method_noargs_class", "extra"), ("method_range", "extra"), ("method_range_os", "extra"), ("method_range_os_oe", "extra"), ("method_norange_os", "extra"),
+               ("bad_unspaced_arrow", "extra"), ("bad_class_no_colon", "extra"), ("bad_indent2", "extra"), ("bad_start_without_end", "extra"), ("bad_no_type", "extra"), ("bad_no_arrow", "extra")]:
     H("C05", "mapping", "c05_" + _n, tier=_t, timeout=3000, what="template " + _n, **_c05)
-H("C05", "mapping", "c05_parse_usize_20", tier="thorough", timeout=3000, what="parse_usize on 1..20 symbolic digits: exact value or error on overflow", vars="20 digits, count", bound="<=20 digits",
+H("C05", "mapping", "c05_parse_usize_20", tier="extra", timeout=3000, what="parse_usize on 1..20 symbolic digits: exact value or error on overflow", vars="20 digits, count", bound="<=20 digits",
   functions=["mapping::parse_usize"], stubs=["core::str::from_utf8 -> from_utf8_model", "char::is_numeric -> is_numeric_model"])
 
 # --------------------------------------------------------------------------- C10
@@ -327,6 +333,8 @@ PROPS["C18"] = dict(
     outside="SHA-1 / RFC 4122 arithmetic inside the uuid crate (uninterpreted here; its contract is trusted); sources longer than 16 bytes (the function is length-oblivious); cross-process stability",
     assumptions=["uuid::Uuid::new_v5 -> uninterpreted recorder returning a fresh arbitrary value per call"],
 )
+H("C18", "mapping", "c18_uuid_wiring_1", features="uuid", timeout=900, what="uuid() wiring for every source of <=1 symbolic byte", vars="1 byte, length", bound="<=1 byte",
+  functions=["ProguardMapping::uuid", "lazy_static NAMESPACE"], stubs=["uuid::Uuid::new_v5 -> recorder"], name_path="mapping::verif_harness::c18::c18_uuid_wiring_1")
 H("C18", "mapping", "c18_uuid_wiring_3", features="uuid", timeout=600, what="uuid() wiring for every source of <=3 symbolic bytes", vars="3 bytes, length", bound="<=3 bytes",
   functions=["ProguardMapping::uuid", "lazy_static NAMESPACE"], stubs=["uuid::Uuid::new_v5 -> recorder"], name_path="mapping::verif_harness::c18::c18_uuid_wiring_3")
 H("C18", "mapping", "c18_uuid_wiring", features="uuid", timeout=600, what="uuid() wiring for every source of <=16 symbolic bytes", vars="16 bytes, length", bound="<=16 bytes",
